@@ -265,6 +265,30 @@ func genCases(kind, tier string, seed uint64, outPath string) {
 				emit("atpexplore", s, sx.L(sx.A("delay2"), sx.I(40), sx.I(int64(r.Intn(1<<30)))))
 			}
 		}
+	case "c05m": // C05: MODEL schedules (coq/ATP/Client.v) forced on the real client - sessions in which the peer sends NON-TERMINAL
+		// messages that carry a run id (a non-fatal error report = notice, emitted signals, unknown message ids) before the run's
+		// terminal message: the model routes by run id and message class (C05_client_routes_by_run_id), the result of every
+		// Execute is compared with the model's
+		nSess := 36
+		if tier == "thorough" {
+			nSess = 600
+		}
+		for i := 0; i < nSess; i++ {
+			n := 1 + r.Intn(3)
+			s := healthySession(r, n, true)
+			// every run gets at least one notice in front of its terminal message
+			var script []pmsg
+			for _, m := range s.script {
+				if isTerminalKind(m.kind) {
+					for k := 1 + r.Intn(2); k > 0; k-- {
+						script = append(script, pmsg{m.run, "notice"})
+					}
+				}
+				script = append(script, m)
+			}
+			s.script = script
+			emit("atpclient", s, choicesNode(r, 80+50*n))
+		}
 	case "c05x": // C05: results are never lost, duplicated or delivered to another call, under controlled interleavings
 		nSess := 6
 		if tier == "thorough" {
